@@ -70,6 +70,9 @@ def common_kw(extra):
 class Pair:
     def __init__(self, mode, entries, extra="plain"):
         kw = {"exclude_pgns": list(entries)} if mode == "exclude" else {"include_pgns": list(entries)}
+        # an application keeps its filter list in one object and builds several decoders from it (one per gateway):
+        # the decoder under test is the second one built from the same list object
+        NMEA2000Decoder(**kw, **common_kw(extra))
         self.f = NMEA2000Decoder(**kw, **common_kw(extra))
         self.u = NMEA2000Decoder(**common_kw(extra))
 
